@@ -1945,6 +1945,18 @@ func (db *DB) verifyWithExecutor(ctx context.Context, exec *syncExecutor) (info 
 		info.offset = WALHeaderSize
 		info.salt1, info.salt2 = salt1, salt2
 
+		// SQLite increments salt-1 by exactly one every time it restarts the
+		// WAL. Any other step means the WAL was restarted more than once (or
+		// deleted and created anew) since our last sync: at least one whole
+		// generation was written and checkpointed that we never saw. The scan
+		// for leftover frames below cannot be relied on for this, later frames
+		// of the current generation, committed or not, may have overwritten
+		// them.
+		if salt1 != dec.Header().WALSalt1+1 {
+			info.reason = "wal restarted more than once since last sync, snapshotting"
+			return info, nil
+		}
+
 		if detected, err := db.detectFullCheckpoint(ctx, [][2]uint32{{salt1, salt2}, {dec.Header().WALSalt1, dec.Header().WALSalt2}}); err != nil {
 			return info, fmt.Errorf("detect full checkpoint: %w", err)
 		} else if detected {
